@@ -12,6 +12,8 @@ import time
 from vf import core, deps
 
 ROOT = core.ROOT
+# evidence/replay files of mutant / seeded-change runs are not evidence: those runs redirect them
+OUT = os.environ.get('VERIF_OUT') or ROOT
 PY = '/venv/bin/python'
 
 
@@ -117,7 +119,7 @@ def finish(mod, prop, tier, seed, merged, wall, nshards):
     # replay files
     replay_paths = []
     if violations:
-        rd = os.path.join(ROOT, 'replays', prop)
+        rd = os.path.join(OUT, 'replays', prop)
         os.makedirs(rd, exist_ok=True)
         for n, v in enumerate(violations):
             path = os.path.join(rd, f'{seed}-{tier}-{n}.json')
@@ -144,8 +146,8 @@ def finish(mod, prop, tier, seed, merged, wall, nshards):
     ev = {'property_id': prop, 'tier': tier, 'seed': seed, 'level': getattr(mod, 'LEVEL', 'exploration'),
           'coverage': cov, 'assumptions': list(getattr(mod, 'ASSUMPTIONS', [])), 'wall_s': round(wall, 2),
           'violations': int(nviol)}
-    os.makedirs(os.path.join(ROOT, 'evidence'), exist_ok=True)
-    with open(os.path.join(ROOT, 'evidence', f'{prop}.json'), 'w') as f:
+    os.makedirs(os.path.join(OUT, 'evidence'), exist_ok=True)
+    with open(os.path.join(OUT, 'evidence', f'{prop}.json'), 'w') as f:
         json.dump(core.jsonable(ev), f, indent=1, sort_keys=True)
     # report
     print(f'{prop} tier={tier} seed={seed} tree={cov["tree"]}@{cov["tree_rev"]} wall={wall:.1f}s '
